@@ -71,6 +71,27 @@ def inline_call(fd, bb, gd):
         fd["debug"].append(v)
     dest = t["dest"]
     target = t["target"]
+    # a generic helper: its type parameters stand, in the inlined copy, for the types of this call site
+    subst = {}
+    gens = g.get("generics") or []
+    targs = t.get("resolved_targs")
+    if gens and targs and len(gens) == len(targs):
+        subst = dict(zip(gens, targs))
+
+    def _subst_ty(ty):
+        if isinstance(ty, dict):
+            if ty.get("k") == "param" and ty.get("name") in subst:
+                return copy.deepcopy(subst[ty["name"]])
+            return {k_: _subst_ty(v_) for k_, v_ in ty.items()}
+        if isinstance(ty, list):
+            return [_subst_ty(x_) for x_ in ty]
+        return ty
+    if subst:
+        for gb in g["blocks"]:
+            gt_ = gb["term"]
+            for key_ in ("callee_targs", "callee_self", "resolved_targs"):
+                if key_ in gt_ and gt_[key_] is not None:
+                    gt_[key_] = _subst_ty(gt_[key_])
     for j, gb in enumerate(g["blocks"]):
         for st in gb["stmts"]:
             if st["s"] in ("assign", "setdiscr"):
